@@ -117,6 +117,42 @@ def segMasked : List Seg → Nat → Str
   | .txt c :: r, k => c :: segMasked r k
   | .lit _ :: r, k => maskOf k ++ segMasked r (k + 1)
 
+/-! ## the project option `lower` -/
+
+/-- lower-case the text outside the literals; literal contents untouched
+    (what the documented option `lower` promises: "convert all non-string, non-comment source
+    code to lower case") -/
+def lowerSegs : List Seg → List Seg
+  | [] => []
+  | .txt c :: r => .txt (lowerChar c) :: lowerSegs r
+  | .lit s :: r => .lit s :: lowerSegs r
+
+/-- lower-case everything, literal contents included -/
+def lowerAllSegs : List Seg → List Seg
+  | [] => []
+  | .txt c :: r => .txt (lowerChar c) :: lowerAllSegs r
+  | .lit s :: r => .lit (lower s) :: lowerAllSegs r
+
+/-- what the head of the loop body of `FortranContainer.__init__` makes of one statement:
+    the line the parser looks at and `self.strings` -/
+structure Prep where
+  masked : Str
+  strings : List Str
+  deriving DecidableEq, Repr
+
+/-- The literals are cut out *first*; with the option `lower` the *masked* line is then
+    lower-cased (`line = line.lower()` after the cut-out loop), `self.strings` is not. -/
+def prepLine (lowerOpt : Bool) (line : Str) : Prep :=
+  let segs := cutLits line
+  ⟨if lowerOpt then lower (segMasked segs 0) else segMasked segs 0, segStrings segs⟩
+
+/-- the other order (lower-case the statement, then cut): what the parser sees is the same,
+    but `self.strings` holds lower-cased literals.  Not what the code does; kept to state that
+    the order matters (`lower_before_cut_witness`). -/
+def prepLineLowerFirst (line : Str) : Prep :=
+  let segs := cutLits (lower line)
+  ⟨segMasked segs 0, segStrings segs⟩
+
 /-! ## small string transformations -/
 
 def nbspChar : Char := Char.ofNat 0xA0
@@ -310,11 +346,15 @@ def afterColons : Str → Option Str
   | [_] => none
   | c :: d :: r => if c == ':' && d == ':' then some r else afterColons (d :: r)
 
-/-- the declared entities of one (unmasked) declaration line, as FORD will show them -/
-def declVars (line : Str) : Except RErr (List VarShow) :=
-  let segs := cutLits line
-  match afterColons (segMasked segs 0) with
+/-- the declared entities of one (unmasked) declaration line, as FORD will show them, for a
+    project with the option `lower` off / on -/
+def declVarsOpt (lowerOpt : Bool) (line : Str) : Except RErr (List VarShow) :=
+  let p := prepLine lowerOpt line
+  match afterColons p.masked with
   | none => .ok []
-  | some d => decAll (segStrings segs) (parenSplit ',' (strip d))
+  | some d => decAll p.strings (parenSplit ',' (strip d))
+
+/-- ... with the default settings -/
+def declVars (line : Str) : Except RErr (List VarShow) := declVarsOpt false line
 
 end Ford.Show
